@@ -503,12 +503,14 @@ func c13ReplayDeterminism(c *Ctx) {
 					logged = true
 				}
 			})
-			construct := qname(f) + " → " + nondet
+			// identified by what is re-evaluated on replay, not by the function that happens to hold the call (a refactoring that
+			// moves the call must not turn the known finding into a new alarm)
+			construct := "replay (ProcessWAL) ⇒ " + nondet
 			if logged {
 				c.ok("replay-determinism", construct, p.Pos(s.Pos()), "value is logged by the same function")
 			} else {
 				c.viol("replay-determinism", construct, p.Pos(s.Pos()),
-					"reachable from ProcessWAL (replay): "+nondet+" is re-evaluated on replay and its result is not logged, so the recovered validator can propose/prevote a different value than before the crash; path "+reach.Path(f))
+					"in "+qname(f)+", reachable from ProcessWAL (replay): "+nondet+" is re-evaluated on replay and its result is not logged, so the recovered validator can propose/prevote a different value than before the crash; path "+reach.Path(f))
 			}
 		}
 	}
